@@ -312,7 +312,7 @@ pub fn campaigns(ctx: &Ctx) -> Stats {
             Some(build(&R13 { shapes, tracked: vec![true, false, true], masks: vec![m(pat % 8, 0), m(pat / 8, 1)], lri: 0 }, None))
         },
     ));
-    let (total, max_params, max_rounds) = t.pick((40000u64, 7usize, 4usize), (1000000, 9, 6));
+    let (total, max_params, max_rounds) = t.pick((160000u64, 7usize, 4usize), (1000000, 9, 6));
     let strat = move || {
         (
             prop::collection::vec(prop::collection::vec(1..=5usize, 1..=3), 0..=max_params),
@@ -326,7 +326,7 @@ pub fn campaigns(ctx: &Ctx) -> Stats {
     };
     st.merge(ctx.run_prop("random-parameter-lists", total, strat, |(r, rl)| Some(build(r, if r.lri >= 8 { Some(*rl) } else { None }))));
     // long lists: more parameters than fit in one machine word of flags, frozen ones at every position
-    let long_total = t.pick(600u64, 6000);
+    let long_total = t.pick(2400u64, 12000);
     let strat_long = move || (60..=140usize, prop::collection::vec(any::<u8>(), 8..40), prop::collection::vec(any::<u8>(), 8..40), 0..8usize).boxed();
     st.merge(ctx.run_prop("long-parameter-lists", long_total, strat_long, |(n, m1, m2, lri)| {
         let shapes: Vec<Vec<usize>> = (0..*n).map(|i| vec![1 + (i % 3)]).collect();
